@@ -61,6 +61,18 @@ def scenario_docs():
         [cmd(N(), bk(T()), bk(T()), br(T())), cmd('q', br(C('a')), br(C('a')), br(C('b')))],
         [env(N(), [br(T()), br(T()), br(C('z'))], T())],
         [cmd('q', bk(C('a')), bk(C('a')), br(C('b')), br(C('a')), br(C('c')))],
+        # a text-only environment whose body starts with a blank line (two text tokens)
+        [env(N(), [], C('\n'), C('\n  '), T(2), C(' old\n')), T()],
+        [math(('\\[', '\\]'), C('\n'), C('\n'), T(), C('\n'))],
+        # square brackets that do not follow a command are plain text
+        [env(N(), [], T()), C('[h]'), T()],
+        [{'k': 'group', 'body': [T()]}, C('[0,1)'), env(N(), [br(T())], C('x]'), T())],
+        [math(D, C('[a,b)'), T()), C(' ]'), T()],
+        # starred names next to their unstarred twins; a command / environment that is itself called "text"
+        [cmd('section*', br(T())), cmd('section', br(T())), {'k': 'mathenv', 'name': 'align*', 'body': [T()]},
+         {'k': 'mathenv', 'name': 'align', 'body': [T()]}],
+        [cmd(K.H('NAME', 1), br(T())), cmd('text', br(cmd(N(), br(T())))), env('text', [], cmd('q', br(T())), T())],
+        [math(D, C('x'), cmd('text', br(C('if '), cmd(N()))), T())],
         # environment names are arbitrary text between the braces
         [env('[tex]', [], T()), T()],
         [env('a-b', [br(T())], env('x.y', [], T()))],
